@@ -26,3 +26,4 @@ void c16_tick(void) {
 int c16_str2int(const char *s, unsigned short len, unsigned char *err) { return supla_esp_mqtt_str2int(s, len, err); }
 /* C17: replace the computed topic prefix (the old one is leaked on purpose) */
 void c17_set_prefix(char *p, unsigned len) { supla_esp_mqtt_vars->prefix = p; supla_esp_mqtt_vars->prefix_len = (uint16)len; }
+void c16_on_disconnect(void) { supla_esp_mqtt_conn_on_disconnect(&supla_esp_mqtt_vars->esp_conn); }
